@@ -24,6 +24,7 @@ CExtAdd(a, b) == [op |-> "ext", a |-> a, b |-> b]          \* ( a, ..., b )
 CUnion(a, b) == [op |-> "union", a |-> a, b |-> b]
 CInter(a, b) == [op |-> "inter", a |-> a, b |-> b]
 CExcept(a, b) == [op |-> "except", a |-> a, b |-> b]
+CAllExcept(a) == [op |-> "allexcept", a |-> a, b |-> CNone]   \* ( ALL EXCEPT a ): every value of the parent but those of a
 CSerial(a, b) == [op |-> "serial", a |-> a, b |-> b]       \* T(a)(b)
 
 \* lower bounds: MIN is -infinity, upper bounds: MAX is +infinity
@@ -54,6 +55,8 @@ EffIn(c, plo, phi) ==
                          IN [has |-> TRUE, lb |-> LbMax(x.lb, y.lb), ub |-> UbMin(x.ub, y.ub),
                              ext |-> x.ext \/ y.ext]
     [] c.op = "except" -> EffIn(c.a, plo, phi)
+    \* X.691 10.3 / X.696: the set of excluded values is not visible: the parent's values remain
+    [] c.op = "allexcept" -> [has |-> FALSE, lb |-> plo, ub |-> phi, ext |-> FALSE]
     [] c.op = "serial" -> LET x == EffIn(c.a, plo, phi)
                               y == EffIn(c.b, x.lb, x.ub)
                           IN [has |-> TRUE, lb |-> LbMax(x.lb, y.lb), ub |-> UbMin(x.ub, y.ub),
@@ -84,6 +87,7 @@ OerEffIn(c, plo, phi) ==
             ELSE (IF x.has /\ y.has THEN [has |-> TRUE, lb |-> LbMax(x.lb, y.lb), ub |-> UbMin(x.ub, y.ub), ext |-> FALSE]
                   ELSE IF x.has THEN x ELSE y)
     [] c.op = "except" -> OerEffIn(c.a, plo, phi)
+    [] c.op = "allexcept" -> [has |-> FALSE, lb |-> plo, ub |-> phi, ext |-> FALSE]
     [] OTHER -> [EffIn(c, plo, phi) EXCEPT !.ext = FALSE]
 OerEff(c) == LET e == OerEffIn(c, BMin, BMax) IN IF e.has THEN e ELSE Unconstrained
 
@@ -99,6 +103,7 @@ Sat(c, x, plo, phi) ==
     [] c.op = "union" -> Sat(c.a, x, plo, phi) \/ Sat(c.b, x, plo, phi)
     [] c.op = "inter" -> Sat(c.a, x, plo, phi) /\ Sat(c.b, x, plo, phi)
     [] c.op = "except" -> Sat(c.a, x, plo, phi) /\ ~Sat(c.b, x, plo, phi)
+    [] c.op = "allexcept" -> ~Sat(c.a, x, plo, phi)
     [] c.op = "serial" -> LET p == EffIn(c.a, plo, phi)
                           IN Sat(c.a, x, plo, phi) /\ Sat(c.b, x, p.lb, p.ub)
 IsExtensible(c) == Eff(c).ext
